@@ -99,6 +99,14 @@ CHECKS = {
         "text": "The same model network drives the nick life-cycle: 433 collisions before the welcome (answered by NICK NewNick(refused), NewNick transcribed in TLA+), 001 with the same, another or a case-variant nick, client-requested changes confirmed or refused, server-forced changes, other users renaming to and from look-alike nicks. After every replayed edge Me().Nick must equal the server's nick for the client and Me()/Config().Me must be non-nil, with and without state tracking; the default generator is swept over all 256 last bytes and validated by TLC.",
         "note": MC_NOTE + " The handlers are not modelled: the real client plays their part in every replayed edge, the model network is the oracle.",
     },
+    "C18": {
+        "engine": "Registration.tla", "level": "model_checking", "design_ref": "7 (C18)",
+        "technique": "TLA+ functions DialAddr / Burst / Pong over configuration records; TLC enumerates the configuration product, each configuration run on a real client (in-memory TLS for SSL), recorded dial address, bursts of two successive connects, PONG replies and client PING counts validated by TLC (trace validation)",
+        "text": "Registration.tla defines the address to dial (port added only when none was given, 6697 with SSL), the registration burst in order, the PONG for a token and when the client "
+                "pings. TLC enumerates password x negotiation x SASL x SSL x server forms (hostname, IPv4, bracketed IPv6, with and without port) x PingFreq; every configuration is "
+                "run twice in a row (connect, close, connect) and seven PING tokens (spaces, colons, empty-but-present, 400 bytes) are answered; TLC checks Conforms on every session.",
+        "note": MC_NOTE,
+    },
     "C19": {
         "engine": "Caps.tla", "level": "model_checking", "design_ref": "7 (C19)",
         "technique": "TLA+ model of CAP LS/REQ/ACK/NAK/END and SASL PLAIN/EXTERNAL with outcomes 903/904/908; TLC closure over all wanted/advertised subsets and reply scripts, two action properties proved on the model, every edge replayed on a real client; long capability lists force request splitting",
